@@ -184,7 +184,12 @@ def random_toy(rng, kmax=12):
     k = rng.randrange(3, kmax + 1)
     nind = rng.choice([1, 2, 3, 4])
     d = rng.choice([1, 2])
-    names = [f"{rng.choice('abcxyz')}{j:02d}" for j in range(k)]
+    # half of the toy graphs use one fixed pool of names: different structures over the same variable names are built in
+    # the same interpreter (anything remembered per name set rather than per definition would be served to the wrong graph)
+    if rng.random() < 0.5:
+        names = [f"v{j:02d}" for j in range(k)]
+    else:
+        names = [f"{rng.choice('abcxyz')}{j:02d}" for j in range(k)]
     rng.shuffle(names)
     nodes = []
     n_roots = rng.randrange(1, max(2, k // 2) + 1)
